@@ -16,8 +16,8 @@ impl<T: CoordNum> Rect<T> {
         exists|a: Coord<T>, b: Coord<T>| call_ensures(C::into, (c1,), a) && call_ensures(C::into, (c2,), b)
             && ((rmin(r).x.val() == a.x.val() && rmax(r).x.val() == b.x.val()) || (rmin(r).x.val() == b.x.val() && rmax(r).x.val() == a.x.val()))
             && ((rmin(r).y.val() == a.y.val() && rmax(r).y.val() == b.y.val()) || (rmin(r).y.val() == b.y.val() && rmax(r).y.val() == a.y.val())),
-//@before 1 `let (min_x, max_x)`
-        proof { T::ax_obeys(); T::ax_cmp(c1.x, c2.x); T::ax_cmp(c1.y, c2.y); }
+//@entry
+        proof { T::ax_obeys(); T::ax_order(); }
 //@end
 
 }
